@@ -171,7 +171,7 @@ func init() {
 				}
 			}
 		}
-		for _, cc := range corpus.CRLs {
+		for _, cc := range append(append([]CorpusCRL{}, corpus.CRLs...), crlZoo()...) {
 			ref := resultsOf(zlint.LintRevocationList(cc.CRL))
 			for r := 1; r < reps; r++ {
 				repRuns++
